@@ -58,5 +58,9 @@ def peewee_v2_to_sqlite_v1(datastore):
             bucket["name"],
         )
         bucket_events = pw_db.get_events(bucket_id, -1)
+        # The new database assigns its own ids: an event that carries an id
+        # would be treated as an update of a (non-existent) row and be lost
+        for event in bucket_events:
+            event.id = None
         datastore.insert_many(bucket_id, bucket_events)
     logger.info("Migration of peewee v2 to sqlite v1 finished")
